@@ -391,6 +391,8 @@ type rcfg struct {
 	// PreFile: the earlier life reads this other stream to its end (io.Copy) before Reset(source)
 	PreFile string `json:"preFile,omitempty"`
 	PrePart int    `json:"prePart,omitempty"`
+	// PreConc: the concurrency of the earlier life (the judged life re-applies Conc after Reset)
+	PreConc int `json:"preConc,omitempty"`
 }
 
 type robs struct {
@@ -493,7 +495,9 @@ func runReaderDelay(data []byte, cfg rcfg, watchdog time.Duration, outLimit int,
 			first = &fragReader{data: other}
 		}
 		zr := lz4.NewReader(first)
-		if cfg.Conc != 1 {
+		if cfg.PreConc != 0 && (cfg.PreFile != "" || cfg.PreBytes > 0) {
+			_ = zr.Apply(lz4.ConcurrencyOption(cfg.PreConc))
+		} else if cfg.Conc != 1 {
 			c := cfg.Conc
 			if c == 0 {
 				c = -1
@@ -544,6 +548,16 @@ func runReaderDelay(data []byte, cfg rcfg, watchdog time.Duration, outLimit int,
 			if afterPreLife != nil {
 				afterPreLife()
 				afterPreLife = nil
+			}
+		}
+		if cfg.PreConc != 0 && (cfg.PreFile != "" || cfg.PreBytes > 0) {
+			c := cfg.Conc
+			if c == 0 {
+				c = -1
+			}
+			if err := zr.Apply(lz4.ConcurrencyOption(c)); err != nil {
+				o.Outcome, o.Err = "error", classify(err)
+				return
 			}
 		}
 		out := &limitedBuf{limit: outLimit}
